@@ -65,6 +65,41 @@ def spline_scenarios(tier, what):
     return out
 
 
+def entry_scenarios(tier, what):
+    out = []
+    if what == "entry1d":
+        combos = [("3", "3", 0, 0), ("3", "", 0, 0), ("3x2", "3", 0, 0), ("3x2", "", 0, 0), ("3x2", "2x2", 0, 0), ("3", "2x2", 0, 0), ("3x2x2", "2", 0, 0),
+                  ("3x2x2", "2", 0, 1), ("3x2", "2", 0, 1), ("3", "2", 0, 1), ("3x2", "2", 1, 0), ("3x2x2", "2x3", 1, 1), ("3x2", "2", 1, 1), ("3", "", 0, 1),
+                  ("3x2", "0", 0, 0), ("3x0", "2", 0, 0)]
+        if tier == "thorough":
+            combos += [("3x2x2", "2x2", 0, 0), ("3x2", "2x1x2", 0, 0), ("3", "2x1x2", 0, 0), ("3x2x1x2", "2", 0, 0), ("3x2x1x2", "2x1x2x1", 0, 0), ("3x2", "2x2", 1, 0),
+                       ("3x2x2", "", 0, 1), ("3x2", "2x2x2", 0, 1), ("4x3", "0x2", 0, 0), ("3x2", "2x0", 0, 1)]
+        for d, q, dd, qd in combos:
+            for st in ("linear", "spline", "record", "linear-extrap"):
+                if st == "spline" and d.startswith("3") and False:
+                    continue
+                out.append("entry1d data=%s q=%s ddyn=%d qdyn=%d strat=%s" % (d, q, dd, qd, st))
+    if what == "entry2d":
+        combos = [("3x3", "2", 0, 0), ("3x3", "", 0, 0), ("3x2x2", "2", 0, 0), ("3x3", "2x2", 0, 0), ("3x2x2", "2x2", 0, 0), ("3x2x2", "2", 1, 0), ("3x2x2", "2", 1, 1),
+                  ("3x2x2", "2x2", 0, 1), ("3x3", "2", 0, 1)]
+        if tier == "thorough":
+            combos += [("3x2x2x2", "2", 0, 0), ("3x2x2x2", "2x2", 0, 0), ("3x2x2", "", 1, 1), ("3x3", "2x1", 0, 1)]
+        for d, q, dd, qd in combos:
+            for st in ("bilinear", "record"):
+                out.append("entry2d data=%s q=%s ddyn=%d qdyn=%d strat=%s" % (d, q, dd, qd, st))
+    if what == "fastpath":
+        out += ["fastpath elem=f64", "fastpath elem=f32", "fastpath elem=i32", "fastpath elem=i64"]
+    if what == "builder":
+        out += ["builder"]
+    if what == "lanes":
+        for n in ([3, 4, 5] if tier == "quick" else [3, 4, 5, 6, 7]):
+            for lanes in ("2", "2x2", "1", "3x2", "1x3"):
+                for st in ("linear", "spline", "bilinear"):
+                    out.append("lanes n=%d lanes=%s strat=%s" % (n, lanes, st))
+        out += ["lanes n=3 lanes=0 strat=linear", "lanes n=4 lanes=2x0 strat=linear"]
+    return out
+
+
 def run(repo, cfg, pid, tier, seed, build):
     t0 = time.time()
     o = dict(engine="S", name="symexec", bounded=True, failures=[], undecided=[], obligations=0, discharged=0, samples=[], cmds=[], not_decided=[],
@@ -77,6 +112,8 @@ def run(repo, cfg, pid, tier, seed, build):
     for what in cfg.get("scenarios", ["all"]):
         lines.extend(spline_scenarios(tier, what))
     lines.extend(cfg.get("extra_lines", {}).get(tier, []) if isinstance(cfg.get("extra_lines"), dict) else cfg.get("extra_lines", []))
+    for what in cfg.get("entry", []):
+        lines.extend(entry_scenarios(tier, what))
     lines = list(dict.fromkeys(lines))
     p = subprocess.run([binary], input="\n".join(lines) + "\n", capture_output=True, text=True)
     recs = [l for l in p.stdout.split("\n") if l.strip()]
@@ -85,8 +122,35 @@ def run(repo, cfg, pid, tier, seed, build):
     # split into chunks for parallel discharge
     workdir = os.path.join(build, "s-%s-%s" % (pid, tier))
     os.makedirs(workdir, exist_ok=True)
+    prefixes = tuple(cfg.get("count", ["S:%s:" % pid]))
+    dag_recs = []
+    for r in recs:
+        if '"checks":[' in r[:400] or r.startswith('{"scenario"') and '"nodes"' not in r[:600]:
+            try:
+                d = json.loads(r)
+            except Exception:
+                o["undecided"].append("unparsable runner record")
+                continue
+            if d.get("result") != "ok":
+                o["obligations"] += 1
+                o["failures"].append(dict(engine="S", obligation="S:%s:run[%s]" % (pid, d["scenario"]), message="the real code panicked in scenario %s" % d["scenario"],
+                                          witness=dict(scenario=d["scenario"]), output=r[:2000], scenario=d["scenario"]))
+            for c in d.get("checks", []):
+                nm = "S:" + c["name"]
+                if not nm.startswith(prefixes):
+                    continue
+                o["obligations"] += 1
+                if c["ok"]:
+                    o["discharged"] += 1
+                    if len(o["samples"]) < 8:
+                        o["samples"].append(dict(obligation=nm, discharged=True, backend="node identity on the real code's recorded computation", bounded=True))
+                else:
+                    o["failures"].append(dict(engine="S", obligation=nm, message="relational check failed on the real code: %s" % c["detail"],
+                                              witness=dict(scenario=d["scenario"], detail=c["detail"], replay="echo '%s' | <runner>" % d["scenario"]), output=json.dumps(c), scenario=d["scenario"]))
+        else:
+            dag_recs.append(r)
     chunks = [[] for _ in range(12)]
-    for i, r in enumerate(recs):
+    for i, r in enumerate(dag_recs):
         chunks[i % 12].append(r)
     fams = ",".join(cfg.get("families", ["shape"]))
     sym_rule = cfg.get("sym", {}).get(tier, "sym<=0") if isinstance(cfg.get("sym"), dict) else cfg.get("sym", "sym<=0")
@@ -103,7 +167,6 @@ def run(repo, cfg, pid, tier, seed, build):
 
     with ThreadPoolExecutor(max_workers=12) as ex:
         outs = list(ex.map(work, range(12)))
-    prefixes = tuple(cfg.get("count", ["S:%s:" % pid]))
     for chunk in outs:
         for sc in chunk:
             if sc.get("error"):
